@@ -35,12 +35,12 @@ NVAL = 8  # parallel TLC trace validators (one JVM each)
 
 
 def _pvalidate(ctx, files, what, timeout=1500):
-    """Validate trace files in parallel TLC runs (NVAL at a time, <= ~50 MB of trace each); returns the files of
+    """Validate trace files in parallel TLC runs (NVAL at a time, <= ~24 MB of trace each, which TLC validates in < 1 GB of heap); returns the files of
     rejected groups.  vlib names its work directories by module + millisecond, so every parallel slot gets its
     own copy of the trace module."""
     body = open(os.path.join(ctx.specdir, "TraceForkView.tla")).read()
     total = sum(os.path.getsize(f) for f in files)
-    nb = max(NVAL, -(-total // (50 << 20)))
+    nb = max(NVAL, -(-total // (24 << 20)))
     bins = [[0, []] for _ in range(nb)]
     for f in sorted(files, key=os.path.getsize, reverse=True):
         b = min(bins, key=lambda x: x[0])
@@ -87,6 +87,7 @@ def _lines(files):
 
 def run(ctx):
     import vlib
+    os.environ.setdefault("VERIF_TLC_HEAP", "2g")   # measured: an 18 MB trace needs 0.7 GB; 8 validators run in parallel
     ctx.build()
     # ctx.violation / counters are called from validator threads
     vlock = threading.Lock()
@@ -133,19 +134,19 @@ def run(ctx):
     ctx.cov["exhaustive"] = True
 
     # ---- seeded random histories on the real database (bigger universe than TLC enumerates)
-    #           table  naddr maxlive steps maxwrites histories-per-shard
-    plans = [("wide", 8, 4, 60, 4, 400), ("wide", 5, 3, 40, 3, 400)] if ctx.quick() else \
-            [("wide", 8, 4, 60, 4, 5000), ("wide", 5, 3, 40, 3, 5000), ("deep", 8, 7, 60, 4, 4000), ("deep", 5, 2, 30, 3, 4000),
-             ("wide", 8, 7, 80, 2, 2000)]
-    shards = 16
-    jobs = [(pi, sh) for pi in range(len(plans)) for sh in range(shards // (2 if ctx.quick() else 1))]
+    #           table  naddr maxlive steps maxwrites histories-per-shard shards via-account.Manager
+    plans = [("wide", 8, 4, 60, 4, 300, 8, False), ("wide", 5, 3, 40, 3, 350, 8, False), ("wide", 8, 4, 40, 3, 250, 4, True)] if ctx.quick() else \
+            [("wide", 8, 4, 60, 4, 1200, 16, False), ("wide", 5, 3, 40, 3, 1200, 16, False), ("deep", 8, 7, 60, 4, 800, 16, False),
+             ("deep", 5, 2, 30, 3, 800, 16, False), ("wide", 8, 7, 80, 2, 400, 16, False),
+             ("wide", 8, 4, 40, 3, 800, 16, True), ("deep", 6, 6, 60, 4, 500, 16, True)]
+    jobs = [(pi, sh) for pi in range(len(plans)) for sh in range(plans[pi][6])]
 
     def drive(job):
         pi, sh = job
-        table, naddr, maxlive, steps, maxw, n = plans[pi]
+        table, naddr, maxlive, steps, maxw, n, _, am = plans[pi]
         out = ctx.path("traces", "rand.%d.%d.ndjson" % (pi, sh))
         rr = ctx.drive("forkview-rand", ["-out", out, "-seed", ctx.seed * 1000 + pi * 100 + sh, "-n", n, "-steps", steps,
-                                         "-naddr", naddr, "-maxlive", maxlive, "-maxwrites", maxw, "-table", table, "-restart", 1],
+                                         "-naddr", naddr, "-maxlive", maxlive, "-maxwrites", maxw, "-table", table, "-restart", 1] + (["-am"] if am else []),
                        timeout=1500, env={"VERIF_SCRATCH_DIR": ctx.path("work", "rand.%d.%d" % (pi, sh), ".keep")[:-6]})
         return out, json.loads(rr.stdout.strip().splitlines()[-1])
     with concurrent.futures.ThreadPoolExecutor(16) as ex:
@@ -160,7 +161,7 @@ def run(ctx):
     ctx.extra["distinct_transitions_replayed"] = sum(sm["graph_edges"] for _, files, sm in replays if not bad.intersection(files))
     ctx.extra["real_events_validated"] = _lines([f for f in allfiles if f not in bad])
     ctx.extra["random_histories"] = hist
-    ctx.extra["random_history_plans"] = [dict(zip(("table", "naddr", "maxlive", "steps", "maxwrites", "per_shard"), p)) for p in plans]
+    ctx.extra["random_history_plans"] = [dict(zip(("table", "naddr", "maxlive", "steps", "maxwrites", "per_shard", "shards", "via_account_manager"), p)) for p in plans]
     with open(rfiles[0]) as fh:
         first = [json.loads(next(fh)) for _ in range(12)]
     samples.append(["%s%s" % (e["ev"], e.get("a", "")) for e in first])
